@@ -76,8 +76,32 @@ func (ex *Exec) callAt(x ssa.Value, cc *ssa.CallCommon, h *Heap, reach Term) {
 	}
 	// dynamic call through a function value
 	sig := cc.Value.Type().Underlying().(*types.Signature)
+	if ex.depth == 0 && ex.contract != nil && len(ex.contract.DynCalls) > 0 {
+		fld := ""
+		switch v := cc.Value.(type) {
+		case *ssa.Field:
+			fld = fieldName(v.X.Type(), v.Field)
+		case *ssa.UnOp:
+			if fa, ok := v.X.(*ssa.FieldAddr); ok {
+				st, _ := derefStruct(fa.X.Type())
+				fld = fieldName(st, fa.Field)
+			}
+		}
+		ex.counters["dyn."+fld]++
+		vars := ex.paramVars()
+		for i, a := range cc.Args {
+			vars[fmt.Sprintf("arg%d", i)] = SV{ex.val(a), a.Type()}
+		}
+		sc := ex.specCtx(vars, h.clone())
+		for _, dc := range ex.contract.DynCalls {
+			if dc.Field == fld {
+				ex.q.oblige(fmt.Sprintf("%s/pre@dyn.%s#%d.%s", ex.q.fnName, fld, ex.counters["dyn."+fld], dc.Clause.Label), "pre", reach, sc.evalBool(dc.Clause),
+					ex.P.fset.Position(x.Pos()), "precondition of the call through "+fld+": "+dc.Clause.Text)
+			}
+		}
+	}
 	ex.q.note("%s: call through function value %s: heap havoced, result unconstrained", ex.fn.Name(), cc.Value.Name())
-	*h = *ex.q.havocAll(h, reach)
+	*h = *ex.havocAllKeep(h, reach)
 	ex.setResults(x, sig, ex.havocResults(sig, reach))
 }
 
@@ -220,7 +244,7 @@ func (ex *Exec) contractCall(f *ssa.Function, c *Contract, args []Term, h *Heap,
 		vars[pnames[i]+"0"] = SV{args[i], ptypes[i]}
 	}
 	pre := h.clone()
-	cx := &Exec{q: q, P: ex.P, fn: f, vals: map[ssa.Value]Term{}, locs: map[ssa.Value]*Loc{}, params: args, entryHeap: pre, stack: ex.stack, depth: ex.depth, counters: ex.counters, root: ex.root, witness: map[string]SV{}}
+	cx := &Exec{q: q, P: ex.P, fn: f, vals: map[ssa.Value]Term{}, locs: map[ssa.Value]*Loc{}, params: args, entryHeap: pre, stack: ex.stack, depth: ex.depth, counters: ex.counters, root: ex.root, witness: map[string]SV{}, parentExec: ex}
 	for i, p := range f.Params {
 		cx.vals[p] = args[i]
 	}
@@ -365,6 +389,13 @@ func (ex *Exec) builtin(x ssa.Value, f *ssa.Builtin, cc *ssa.CallCommon, h *Heap
 		m, k := ex.val(cc.Args[0]), ex.val(cc.Args[1])
 		hm := q.heapGet(h, hk)
 		q.heapSet(h, hk, store(hm, m, store(sel(hm, m), k, tFalse)))
+	case "ssa:wrapnilchk":
+		// wrapper methods: panics if the pointer receiver is nil, else returns it
+		v := ex.val(cc.Args[0])
+		if ins, isIns := x.(ssa.Instruction); isIns {
+			ex.safety("safe.nil", reach, not(eq(v, tInt(0))), ins, "value method called through a nil pointer")
+		}
+		ex.vals[x] = v
 	case "print", "println":
 	case "recover":
 		ex.vals[x] = ex.havocVal("recovered", x.Type(), reach)
@@ -532,6 +563,16 @@ func (ex *Exec) tryIfaceMethodTerm(recv Term, it types.Type, name string, args [
 		if f.Synthetic != "" && len(f.Blocks) == 0 {
 			continue
 		}
+		// *T boxed where the method is declared on T: evaluate T's method on the pointee
+		viaPointer := false
+		if pt, isPtr := ct.(*types.Pointer); isPtr && f.Synthetic != "" {
+			if fv := ex.P.lookupMethod(pt.Elem(), name); fv != nil && fv.Synthetic == "" {
+				if _, recvIsPtr := fv.Signature.Recv().Type().(*types.Pointer); !recvIsPtr {
+					f = fv
+					viaPointer = true
+				}
+			}
+		}
 		if ex.P.loops(f).hasLoops() || len(f.Blocks) == 0 || len(f.Blocks) > 12 || ex.onStack(f) {
 			continue // falls to the uninterpreted arm
 		}
@@ -557,6 +598,9 @@ func (ex *Exec) tryIfaceMethodTerm(recv Term, it types.Type, name string, args [
 			ex2 := newExec(q, f, ex)
 			ex2.skipSafety = true
 			rv := ex.unbox(ct, recv)
+			if viaPointer {
+				rv = ex.load(&Loc{kind: lkObj, base: rv, typ: ct.(*types.Pointer).Elem()}, h)
+			}
 			ex2.params = append([]Term{rv}, args...)
 			ex2.entryHeap = h
 			ex2.entryReach = tTrue
